@@ -77,4 +77,136 @@ theorem goodName_single (c : UInt8) (h1 : c ≠ 0) (h2 : c ≠ cNl) (h3 : c ≠ 
   simpa [sDot, cDot] using h4
 
 
+mutual
+theorem faults_none (o : Opts) (h : o.fsize = none) (t : Tree) : faults o t = 0 := by
+  cases t with
+  | file m t a d => simp [faults, Opts.fitsB, h]
+  | dir m t a kids => simp only [faults]; exact faultsKids_none o h kids
+theorem faultsKids_none (o : Opts) (h : o.fsize = none) (kids : List (Str × Tree)) : faultsKids o kids = 0 := by
+  cases kids with
+  | nil => rfl
+  | cons nk r =>
+    obtain ⟨n, k⟩ := nk
+    simp only [faultsKids]
+    rw [faults_none o h k, faultsKids_none o h r]
+end
+
+end PdshVerif.Pcp
+
+namespace PdshVerif.Pcp
+open PdshVerif.Gen
+
+/-! ## nothing but the trees is installed -/
+
+mutual
+/-- the tree has a node at the relative path `rel` below its root -/
+def Tree.has : Tree → List Str → Bool
+  | .file _ _ _ _, rel => rel.isEmpty
+  | .dir _ _ _ kids, rel =>
+    match rel with
+    | [] => true
+    | c :: r => kidsHave kids c r
+/-- one of the named trees has a node at `c :: rel` -/
+def kidsHave : List (Str × Tree) → Str → List Str → Bool
+  | [], _, _ => false
+  | (n, k) :: r, c, rel => (n == c && k.has rel) || kidsHave r c rel
+end
+
+theorem setMtimeAt_none (g : FS) (p : Path) (t : Time) (x : Path) : setMtimeAt g p t x = none ↔ g x = none := by
+  unfold setMtimeAt
+  cases hg : g p with
+  | none => rfl
+  | some nd =>
+    simp only []
+    by_cases e : x = p
+    · subst e; simp [FS.set, hg]
+    · rw [set_other _ _ _ _ e]
+
+theorem snoc_append_ne {q : Path} {n c : Str} {r : List Str} : q ++ [n] ++ c :: r ≠ q ++ [n] := by
+  intro e
+  have := congrArg List.length e
+  simp at this
+
+theorem snoc_append_ne' {q : Path} {n : Str} {rel : List Str} : q ++ [n] ++ rel ≠ q := by
+  intro e
+  have := congrArg List.length e
+  simp at this
+
+theorem ne_prefix_snoc' {q x : Path} {n n' : Str} (hne : n' ≠ n) (hx : (q ++ [n']) <+: x) : ¬ (q ++ [n]) <+: x := by
+  intro hx2
+  have e := List.prefix_of_prefix_length_le hx hx2 (by simp)
+  have e2 : q ++ [n'] = q ++ [n] := e.eq_of_length (by simp)
+  have := List.append_cancel_left e2
+  simp at this
+  exact hne this
+
+mutual
+theorem recvTree_only (o : Opts) (ss : Bool) (fs : FS) (q : Path) (n : Str) (t : Tree) (budget : Nat)
+    (hfresh : FreshBelow fs (q ++ [n])) (hgood : GoodTree budget n t) (rel : List Str)
+    (hx : recvTree o ss fs q n t (q ++ [n] ++ rel) ≠ none) : t.has rel = true := by
+  cases t with
+  | file m t a d =>
+    cases rel with
+    | nil => rfl
+    | cons c r =>
+      exfalso
+      apply hx
+      simp only [recvTree]
+      rw [set_other _ _ _ _ snoc_append_ne, bumpDir_other _ _ _ snoc_append_ne']
+      exact hfresh _ (List.prefix_append _ _)
+  | dir m t a kids =>
+    cases rel with
+    | nil => rfl
+    | cons c r =>
+      simp only [Tree.has]
+      simp only [GoodTree] at hgood
+      have e : q ++ [n] ++ [c] ++ r = q ++ [n] ++ c :: r := by simp
+      have hg : recvKids o ss ((fs.bumpDir q).set (q ++ [n]) (recvDirNode o fs q n m)) (q ++ [n]) kids
+          (q ++ [n] ++ [c] ++ r) ≠ none := by
+        simp only [recvTree] at hx
+        rw [e]
+        split at hx
+        · intro e'; exact hx ((setMtimeAt_none _ _ _ _).2 e')
+        · exact hx
+      have hkfresh : ∀ n' k', (n', k') ∈ kids →
+          FreshBelow ((fs.bumpDir q).set (q ++ [n]) (recvDirNode o fs q n m)) (q ++ [n] ++ [n']) := by
+        intro n' k' _ x hx'
+        have hx1 : (q ++ [n]) <+: x := (List.prefix_append _ _).trans hx'
+        rw [set_other _ _ _ _ (prefix_snoc_ne hx'), bumpDir_other _ _ _ (prefix_snoc_ne hx1)]
+        exact hfresh x hx1
+      rcases recvKids_only o ss _ (q ++ [n]) kids _ hkfresh hgood.2.2.2.2 c r hg with h1 | h1
+      · exfalso
+        apply h1
+        rw [e, set_other _ _ _ _ snoc_append_ne, bumpDir_other _ _ _ snoc_append_ne']
+        exact hfresh _ (List.prefix_append _ _)
+      · exact h1
+theorem recvKids_only (o : Opts) (ss : Bool) (fs : FS) (q : Path) (kids : List (Str × Tree)) (budget : Nat)
+    (hfresh : ∀ n k, (n, k) ∈ kids → FreshBelow fs (q ++ [n])) (hgood : GoodKids budget kids) (c : Str)
+    (rel : List Str) (hx : recvKids o ss fs q kids (q ++ [c] ++ rel) ≠ none) :
+    fs (q ++ [c] ++ rel) ≠ none ∨ kidsHave kids c rel = true := by
+  cases kids with
+  | nil => exact Or.inl hx
+  | cons nk r =>
+    obtain ⟨n, k⟩ := nk
+    simp only [recvKids] at hx
+    simp only [GoodKids] at hgood
+    obtain ⟨hgk, hdist, hgr⟩ := hgood
+    have hfresh1 : ∀ n' k', (n', k') ∈ r → FreshBelow (recvTree o ss fs q n k) (q ++ [n']) := by
+      intro n' k' hm x hx'
+      rw [recvTree_other o ss fs q n k x (prefix_snoc_ne hx') (ne_prefix_snoc' (hdist (n', k') hm) hx')]
+      exact hfresh n' k' (List.mem_cons_of_mem _ hm) x hx'
+    rcases recvKids_only o ss _ q r budget hfresh1 hgr c rel hx with h1 | h1
+    · by_cases e : n = c
+      · subst e
+        right
+        have := recvTree_only o ss fs q n k budget (hfresh n k List.mem_cons_self) hgk rel h1
+        simp [kidsHave, this]
+      · left
+        rw [recvTree_other o ss fs q n k _ snoc_append_ne'
+          (ne_prefix_snoc' (Ne.symm e) (List.prefix_append _ _))] at h1
+        exact h1
+    · right
+      simp [kidsHave, h1]
+end
+
 end PdshVerif.Pcp
